@@ -99,6 +99,27 @@ func c08HashSub() *engine.Sub {
 			if !c1.Equals(want) {
 				ctx.Failf(cs, "cid/tosealed", "ToSealed of %s returned CID %s, content address of the bytes is %s", cs.Spec, c1, want)
 			}
+			// history on one token: the caller may do what it likes with the returned bytes; sealing
+			// the same token again must again return bytes and a CID that belong together
+			if len(b) > 10 {
+				saved := append([]byte{}, b...)
+				b[len(b)/2] ^= 0xff
+				b2, c3, err := tok.(sealer).ToSealed(key.Priv)
+				ctx.Eval(1)
+				if err != nil {
+					ctx.Failf(cs, "cid/second-seal-fails", "sealing %s a second time fails: %v", cs.Spec, err)
+				} else {
+					if !c3.Equals(refCID(b2)) {
+						ctx.Failf(cs, "cid/second-seal-cid-not-address-of-bytes", "second ToSealed of %s (after the caller modified the first result) returns a CID that is not the content address of the bytes returned with it", cs.Spec)
+					}
+					if _, _, err0 := token.FromSealed(saved); err0 != nil {
+						// (tokens that do not unseal in the first place are C07's business)
+					} else if _, _, err := token.FromSealed(b2); err != nil {
+						ctx.Failf(cs, "cid/second-seal-bytes-do-not-unseal", "second ToSealed of %s returns bytes that do not unseal: %v", cs.Spec, err)
+					}
+				}
+				b = saved
+			}
 			var sink bytes.Buffer
 			c2, err := tok.(writerSealer).ToSealedWriter(&sink, key.Priv)
 			ctx.Eval(1)
@@ -144,6 +165,15 @@ func c08HashSub() *engine.Sub {
 			for _, chunk := range []int{1, 7, 0} {
 				for _, ewd := range []bool{false, true} {
 					for _, typed := range []bool{false, true} {
+						// history: a streaming read that fails half-way (non-EOF error) precedes the real one
+						fr := &engine.PosReader{Data: b, FailAt: len(b) / 2, Mode: "error"}
+						if typed && kind == "dlg" {
+							delegation.FromSealedReader(fr)
+						} else if typed {
+							invocation.FromSealedReader(fr)
+						} else {
+							token.FromSealedReader(fr)
+						}
 						r := &chunkReader{data: b, chunk: chunk, eofWithData: ewd}
 						var got cid.Cid
 						var err error
@@ -469,6 +499,7 @@ func c08Decoders(kind string) map[string]func([]byte) (any, error) {
 func c08CanonSub() *engine.Sub {
 	return &engine.Sub{
 		Name: "canonical-bytes",
+		Repeat: true,
 		Rule: "sealed base tokens are parsed with the harness' own CBOR item parser; every single (quick) / every pair (thorough) of data-preserving re-encoding sites is applied: non-minimal head widths, indefinite lengths, chunked strings, map key permutations, narrower floats, undefined for null, spurious tags, extra outer element, trailing bytes; plus key-less signature re-encodings (ECDSA s -> n-s, DER variants, RSA leading zero, Ed25519 s+L). A decoder must reject each re-encoding (two accepted byte strings with the same signed content would have different CIDs); non-trivial = re-encoded bytes differ from the original",
 		Bound: func(t string) string {
 			if t == "thorough" {
